@@ -23,6 +23,7 @@ mod qmeta;
 mod txstress;
 mod conc_txm;
 mod conc_buf;
+mod conc_lpg;
 mod val;
 
 fn main() {
@@ -55,6 +56,7 @@ fn main() {
         "qprobe" => q::probe(&opts),
         "qmeta" => qmeta::main(&opts),
         "txstress" => txstress::main(&opts),
+        "lpgstress" => conc_lpg::stress(&opts),
         _ => {
             eprintln!("unknown subcommand {cmd}");
             2
